@@ -1,13 +1,17 @@
 """Writes MANIFEST.json from the table below (kept in one place so that the file is always valid)."""
 import json, os
 V = os.path.dirname(os.path.dirname(os.path.abspath(__file__)))
-CHECKS = {
-    'C15': dict(
-        technique='Lean 4 theorems over a transcribed schedule model (closed form for all draws/parameter sets, induction over the event list for the id window); translator regenerates the parameter sets; exhaustive correspondence over every random draw',
-        text='Theorems (Properties/C15.lean) prove count, first delay, first-gap window, doubling-with-cap for every parameter set and every outcome of both random draws, and that own message ids are skipped while inside the bounded window, for every event sequence. The real parameter sets are regenerated into Generated/UdpParams.lean on each run; the model is compared with _repeated_enqueue_msg on every draw.',
-        note='Trusted: Lean kernel; translator + harness; float summation (<1us) and the 10 ms send raster are outside the model.',
-        ref='5 C15'),
-}
+import importlib, sys
+sys.path.insert(0, os.path.join(V, 'harness'))
+CHECKS = {}
+for i in range(1, 21):
+    pid = f'C{i:02d}'
+    try:
+        mod = importlib.import_module(f'props.{pid.lower()}')
+    except ModuleNotFoundError:
+        continue
+    if getattr(mod, 'READY', False):
+        CHECKS[pid] = mod.MANIFEST
 NOT_APPLICABLE = []
 
 def main():
